@@ -267,7 +267,16 @@ func genScenario(r *rng, k int, tier string) *scenario {
 	}
 	// make every bar terminal (or cancel the container) so that Wait can return
 	if r.chance(1, 6) {
-		add("cancel")
+		// half of the time the cancellation lands while some bar's actor is busy (a slow decorator or callback in
+		// real life): the shutdown frame's render request and ctx.Done are then both ready when it comes back
+		if n > 0 && r.chance(1, 2) {
+			hb := r.intn(n)
+			add(fmt.Sprintf("hold %d", hb))
+			add("cancel")
+			add(fmt.Sprintf("release %d", hb))
+		} else {
+			add("cancel")
+		}
 	} else {
 		for i := 0; i < n; i++ {
 			switch r.intn(3) {
